@@ -144,6 +144,17 @@ def exec_gmm(case):
     g = GaussianMixture(n_components=K, covariance_type=case["cov"], n_init=case["n_init"], random_state=case["rs"])
     lib_call(g.fit, X.copy(), sample_weight=sw.copy(), what="GaussianMixture.fit")
     check_gmm(g, X, K, case["cov"], "GaussianMixture.fit")
+    # the same model object fitted to other data first must give the same answer as a fresh object (no state carried between fits)
+    g2 = GaussianMixture(n_components=K, covariance_type=case["cov"], n_init=case["n_init"], random_state=case["rs"])
+    X2 = np.random.default_rng(case["seed"] + 1).random((max(2 * K, 6), X.shape[1])) * 3.0 - 1.0
+    lib_call(g2.fit, X2, what="GaussianMixture.fit(other data)")
+    np.random.seed(case["seed"] % 2**31)
+    lib_call(g2.fit, X.copy(), sample_weight=sw.copy(), what="GaussianMixture.fit(refit)")
+    for name in ("weights_", "means_", "covariances_"):
+        a, b_ = np.asarray(getattr(g, name), dtype=float), np.asarray(getattr(g2, name), dtype=float)
+        if a.shape != b_.shape or not np.allclose(a, b_, rtol=1e-9, atol=1e-12, equal_nan=True):
+            raise Violation(f"GaussianMixture: a model object that was fitted to other data before gives a different {name} for the same "
+                            f"data, weights and seed than a fresh object (state carried between fits)", sig={"kind": "state-carried-over"})
     lab = np.asarray(lib_call(g.predict, X.copy(), what="GaussianMixture.predict"))
     if lab.shape != (len(X),) or lab.min() < 0 or lab.max() >= K:
         raise Violation(f"GaussianMixture.predict labels outside [0,{K})", sig={"kind": "predict-range"})
@@ -214,6 +225,16 @@ def exec_hgm(case):
     h = HierarchicalGaussianMixture(n_init=1, max_iterations=case["max_iterations"], min_points=mp, threshold_modifier=case["thr"],
                                     covariance_type=case["cov"], verbose=False, normalize=case["normalize"])
     lib_call(h.fit, X.copy(), sw.copy(), what="HierarchicalGaussianMixture.fit")
+    # no state carried between fits of one model object
+    h2 = HierarchicalGaussianMixture(n_init=1, max_iterations=case["max_iterations"], min_points=mp, threshold_modifier=case["thr"],
+                                     covariance_type=case["cov"], verbose=False, normalize=case["normalize"])
+    X2 = np.random.default_rng(case["seed"] + 1).random((max(4 * d + 2, 10), d)) * 5.0 - 2.0
+    lib_call(h2.fit, X2, what="HierarchicalGaussianMixture.fit(other data)")
+    np.random.seed(case["seed"] % 2**31)
+    lib_call(h2.fit, X.copy(), sw.copy(), what="HierarchicalGaussianMixture.fit(refit)")
+    if int(h2.n_clusters_) != int(h.n_clusters_) or not np.array_equal(np.asarray(h2.labels_), np.asarray(h.labels_)):
+        raise Violation("HierarchicalGaussianMixture: a model object that was fitted to other data before labels the same data differently "
+                        "than a fresh object (state carried between fits)", sig={"kind": "state-carried-over"})
     K = int(h.n_clusters_)
     lab = np.asarray(h.labels_)
     if K < 1 or lab.shape != (n,) or lab.min() < 0 or lab.max() >= K:
